@@ -164,6 +164,9 @@ def _rk_adaptive(fcn, ts, y0, params, cls, atol=1e-8, rtol=1e-5, **unused):
     rtol: float
         The relative error tolerance in deciding the steps
     """
+    if len(ts) == 1:
+        # only the initial time is requested: there is nothing to integrate
+        return y0.unsqueeze(0).clone()
     solver = cls(atol=atol, rtol=rtol)
     solver.setup(fcn, ts, y0, params)
     return solver.solve()
